@@ -92,7 +92,7 @@ def _gen_valid_i(rng, threads=False):
         isc = imp["schema"]
         targets = [("action", a["id"]) for a in isc["actions"] if a["ctx"] is None] + [("checkpoint", c["id"]) for c in isc["checkpoints"] if c["ctx"] is None]
         rng.shuffle(targets)
-        for tgt in targets[:rng.choice([0, 1, 1, 2])]:
+        for tgt in targets[:rng.choice([0, 1, 1, 2, 2, 3, 4])]:
             clean = [a["id"] for a in native["actions"] if a["ctx"] is None and a["id"] not in tainted and not (nb.anc.get(a["id"], set()) & tainted)
                      and a["op"]["appends"] is None]
             if not clean:
@@ -134,6 +134,8 @@ def render_i(case, repo_copy, rng=None, spelling="mixed", shuffle=False, descrip
                     to = "schema:{%s}.%s:%d" % (imp["file"], S.JSON_KIND[c["to"][0]], c["to"][1])
             conns.append({"to_ref": to, "add_dependency": r.ref(c["add"])})
         e = {"file_name": imp["file"]}
+        if shuffle:
+            rng.shuffle(conns)          # connections are order-free
         if conns or rng.random() < 0.5:
             e["connections"] = conns
         doc["imports"].append(e)
